@@ -95,17 +95,54 @@ def val(text: str, kind: str):
     return text
 
 
+# The model's argument forms are abstract (an iterable of pairs, a mapping name -> value, a mapping name -> list);
+# every documented concrete type that carries the same content must take the same transition.
+CARRIERS = {"pairs": ["tuple", "gen"], "dict": ["md", "imd", "mapproxy"], "dictlist": ["md", "imd", "mapproxy", "tuples"]}
+
+
+def carriers_for(c):
+    """carriers under which the call c means the same as in its plain form (MultiDict drops empty lists)"""
+    if c["m"] not in ("extend", "update", "ctor") or c["form"] not in CARRIERS or not c["ps"]:
+        return []
+    if c["form"] == "dictlist" and any(len(p["vs"]) == 0 for p in c["ps"]):
+        return ["mapproxy", "tuples"]
+    return CARRIERS[c["form"]]
+
+
+def _carry(d, carrier):
+    from werkzeug.datastructures import ImmutableMultiDict, MultiDict
+
+    if carrier == "md":
+        return MultiDict(d)
+    if carrier == "imd":
+        return ImmutableMultiDict(d)
+    if carrier == "mapproxy":
+        import types
+        return types.MappingProxyType(d)
+    if carrier == "tuples":
+        return {k: tuple(v) for k, v in d.items()}
+    return d
+
+
 def _arg(c):
     """the positional / keyword argument of extend / update / ctor in its `form`"""
     k = c.get("kind", "str")
     ps = [(txt(p["n"]), [val(txt(v), k) for v in p["vs"]]) for p in c["ps"]]
     form = c["form"]
+    carrier = c.get("carrier", "")      # concrete Python type that carries the abstract argument (see CARRIERS)
     if form == "pairs":
-        return [(n, vs[0]) for n, vs in ps], {}
+        a = [(n, vs[0]) for n, vs in ps]
+        if carrier == "tuple":
+            return tuple(a), {}
+        if carrier == "gen":
+            return (p for p in a), {}
+        return a, {}
     if form == "dict":
-        return {n: vs[0] for n, vs in ps}, {}
+        d = {n: vs[0] for n, vs in ps}
+        return _carry(d, carrier), {}
     if form == "dictlist":
-        return {n: list(vs) for n, vs in ps}, {}
+        d = {n: list(vs) for n, vs in ps}
+        return _carry(d, carrier), {}
     if form == "kwargs":
         return None, {n: list(vs) for n, vs in ps}
     raise ValueError(form)
